@@ -135,7 +135,10 @@ def impl(case):
 def model_query(case, impl_res):
     files = []
     for name, f in case['files'].items():
-        if name.startswith('spikes.times'):
+        if name == 'spike_times.npy' and 'float' in f['dtype']:
+            # a float spike_times.npy holds samples: tokens are the sample numbers themselves
+            data = [x if isinstance(x, str) else int(round(x)) for x in f['data']]
+        elif name.startswith('spikes.times'):
             # seconds are sent to the model as exact sample tokens (seconds * rate)
             data = [x if isinstance(x, str) else int(round(x * case['rate'])) for x in f['data']]
         else:
@@ -161,6 +164,12 @@ def judge(case, impl_res, ans):
             return 'MACHINERY: model does not reject the non-monotonic case'
         if impl_res.get('raised') != 'ValueError':
             return 'SPEC: non-monotonic spike times were not rejected (%s)' % (impl_res.get('raised') or 'loaded')
+        return None
+    if case.get('expect_conflict'):
+        if not str(m.get('error', '')).startswith('conflict') and not case.get('expect_reject'):
+            return 'MACHINERY: model does not refuse the directory with two cluster files (%s)' % m.get('error')
+        if 'raised' not in impl_res:
+            return 'SPEC: a directory holding both spike_clusters.npy and spikes.clusters.npy was loaded'
         return None
     if 'error' in m:
         return 'MACHINERY: model error %s on an in-domain directory' % m['error']
@@ -268,6 +277,7 @@ def F(dtype, shape, data):
 
 def make_case(rng, i):
     tags = []
+    float_times_reject = False
     alf = i % 4 == 3
     vec2d = i % 5 == 2
     ns = rng.randrange(3, 10); nt = rng.randrange(2, 5); nc = rng.randrange(2, 6); nsw = rng.randrange(2, 5)
@@ -287,6 +297,17 @@ def make_case(rng, i):
             tags.append('alf_samples_file')
     else:
         files['spike_times.npy'] = F(tdt, v(ns), samples)
+        if i % 11 == 4:
+            # spike samples stored as floats with a NaN / inf: scrubbed to 0 like every fully loaded array, and
+            # the monotonicity check sees the scrubbed values
+            vals = [float(x) for x in samples]
+            k = rng.pick([0, 0, rng.randrange(ns)])
+            vals[k] = rng.pick(['nan', 'inf', 'ninf'])
+            files['spike_times.npy'] = F('float64', v(ns), vals)
+            scrubbed = [0. if isinstance(x, str) else x for x in vals]
+            tags.append('float_spike_samples_with_nan')
+            if any(b < a for a, b in zip(scrubbed, scrubbed[1:])):
+                float_times_reject = True
     files[N('spike_templates.npy', 'spikes.templates.npy')] = F(rng.pick(['uint32', 'int32', 'int64']), v(ns), st)
     if rng.random() < .6:
         files[N('spike_clusters.npy', 'spikes.clusters.npy')] = F('int32', v(ns), [rng.randrange(nt + 2) for _ in range(ns)])
@@ -364,6 +385,15 @@ def make_case(rng, i):
             tags.append('raw_wider_than_map')
     if rng.random() < .3:
         case['text'] = {'cluster_group.tsv': 'cluster_id\tgroup\n0\tgood\n1\tmua\n'}
+    if float_times_reject:
+        case['expect_reject'] = True
+    if i % 17 == 9 and any(n in files for n in ('spike_clusters.npy', 'spikes.clusters.npy')):
+        # both a KiloSort-named and an ALF-named cluster file: the loader accepts only one
+        other = 'spikes.clusters.npy' if 'spike_clusters.npy' in files else 'spike_clusters.npy'
+        src = files['spike_clusters.npy' if other == 'spikes.clusters.npy' else 'spikes.clusters.npy']
+        files[other] = F('int32', src['shape'], [0] * len(src['data']))
+        case['expect_conflict'] = True
+        tags.append('two_cluster_files')
     if i % 13 == 7 and not alf:
         bad = list(samples)
         bad[1], bad[0] = min(bad[0], bad[1]) , max(bad[0], bad[1]) + 1
